@@ -94,10 +94,18 @@ func parseFloat32(s []byte) float32 {
 //
 // For example, roundUpTo(0.0001, 100) -> 0.01.
 func roundUpTo(value float32, granularity float64) float32 {
+	scaled := float64(value) * granularity
+	// A value which already is a multiple of 1/granularity, as closely
+	// as 32 bits can represent it (e.g. 12.13 at granularity 100), must
+	// not be pushed to the next multiple by its representation error,
+	// which is at most 2^-24 of the value.
+	if r := math.Round(scaled); math.Abs(scaled-r) <= math.Abs(scaled)*6e-8 {
+		return float32(r / granularity)
+	}
 	if value > 0 {
-		return float32(math.Ceil(float64(value)*granularity) / granularity)
+		return float32(math.Ceil(scaled) / granularity)
 	} else if value < 0 {
-		return float32(math.Floor(float64(value)*granularity) / granularity)
+		return float32(math.Floor(scaled) / granularity)
 	}
 	return 0
 }
